@@ -376,7 +376,7 @@ func (f *Frame) run(entryReach string, st *State) {
 		}
 		// loop exit assertions: b is outside loop L but has a predecessor inside it
 		for _, l := range f.loopList {
-			if l.spec == nil || len(l.spec.Exits) == 0 || l.body[b] {
+			if l.spec == nil || len(l.spec.Exits)+len(l.spec.Breaks) == 0 || l.body[b] {
 				continue
 			}
 			isExit := false
@@ -388,7 +388,18 @@ func (f *Frame) run(entryReach string, st *State) {
 			if !isExit {
 				continue
 			}
-			for _, ex := range l.spec.Exits {
+			clauses := append([]*Clause{}, l.spec.Exits...)
+			// "break" clauses: only where control stays inside an enclosing loop
+			inOuter := false
+			for _, l2 := range f.loopList {
+				if l2 != l && l2.body[b] && l2.body[l.header] {
+					inOuter = true
+				}
+			}
+			if inOuter {
+				clauses = append(clauses, l.spec.Breaks...)
+			}
+			for _, ex := range clauses {
 				env := f.specEnv(f.curState, f.entry).asGoal()
 				env.at = b
 				env.loopPre = l.preSt
@@ -437,6 +448,29 @@ func (f *Frame) run(entryReach string, st *State) {
 				for _, ai := range li.autoInv {
 					o := g.oblige("invariant-preserved", c, sApp(ai.op, sub[ai.phi].Term, ai.lo), f.pos(li.header.Instrs[0].Pos()), fmt.Sprintf("automatic counter bound of loop %d of %s", li.ordinal, f.fn.Name()))
 					o.Clause = "auto: " + ai.phi.Comment + " >= initial value"
+				}
+				// this back edge may also leave an inner loop (a break that continues the outer loop): that
+				// loop's exit/break clauses are asserted here, at the end of the leaving block
+				for _, l := range f.loopList {
+					if l == li || l.spec == nil || !l.body[p] || l.body[li.header] {
+						continue
+					}
+					for _, ex := range append(append([]*Clause{}, l.spec.Exits...), l.spec.Breaks...) {
+						env := f.specEnv(f.outState[p], f.entry).asGoal()
+						env.at = p
+						env.atIdx = len(p.Instrs)
+						env.curParams = true
+						env.loopPre = l.preSt
+						g.beginGoal()
+						t := env.evalBool(ex.E)
+						pos := token.Position{}
+						if len(p.Instrs) > 0 {
+							pos = f.pos(p.Instrs[len(p.Instrs)-1].Pos())
+						}
+						o := g.oblige("loop-exit", c, t, pos, fmt.Sprintf("leaving loop %d of %s towards the next iteration of loop %d", l.ordinal, f.fn.Name(), li.ordinal))
+						g.endGoal()
+						o.Clause = ex.Text
+					}
 				}
 				if li.spec != nil {
 					for _, inv := range li.spec.Invariants {
